@@ -168,6 +168,8 @@ public:
     // Computation
     Index compute(Index maxit = 1000, Scalar tol = 1e-10)
     {
+        // Invalidate the eigenvectors cached by matrix_U()/matrix_V() for an earlier compute()
+        m_evecs.resize(0, 0);
         m_eigs->init();
         m_nconv = m_eigs->compute(SortRule::LargestAlge, maxit, tol);
 
